@@ -16,8 +16,10 @@ CHECKS = {
         'stays loaded, the shutter ends closed, is open only inside the chains and during pure z steps, chains are entered at '
         'their first point, and the open depth levels cover [z_off, nboxz*h_box] with gaps <= deltaz; shapely checks that every '
         'chain segment lies in its block footprint.',
-   note='Trusted: Coq kernel; lexer; file-name resolution of base_folder in harness/c06.py; shapely containment (2e-5 mm); the '
-        'exposure-structure clause is a run-time monitor plus the token-level tie, not a theorem over all columns.',
+   note='Trusted: Coq kernel; lexer; file-name resolution of base_folder in harness/c06.py; shapely containment (2e-5 mm). Call discipline and '
+        'exposure structure are theorems about the modelled call file of every column (C06_call_file_safe, via the static '
+        'checker proved sound in Ctl/Static.v) and the same verified checker is run on femto\'s own FARCALL / MAIN files; that the '
+        'chains stay inside the footprints is geometry, decided by shapely on instances.',
    design='5/C06'),
  'C05': dict(
    technique='Coq proof (stable sort = sorted permutation; removal by number via python del semantics; clearance by the triangle inequality in any metric space) + differential of the list logic with recomputed GEOS blocks + shapely measurements',
@@ -131,16 +133,19 @@ CHECKS = {
         'trace data. Purity of numpy/shapely internals is observed, not proved.',
    design='5/C09'),
  'C16': dict(
-   technique='Coq model of the routing (buckets by exact type, writer extend/append, flatten, nest_level) with theorems for single objects, foreign values, waveguide groups and the single-column writer + identity-level differential on real objects over call histories',
+   technique='Coq model of the routing (buckets by exact type, writer extend/append, flatten, nest_level) with theorems for single objects, foreign values, waveguide groups, the single-column writer and the general clause (any mixture of supported entries, any sequence of extends, foreign entries anywhere) + identity-level differential on real objects over call histories',
    text='Props/C16.v: a single supported object goes to the collection of its own type and nowhere else; any other type is rejected '
         'with TypeError and nothing is stored; Device.extend with waveguides and groups of waveguides appends them in order with '
         'the grouping preserved and touches no other collection; a trench writer built from one column equals the one built from '
-        'a one-element list. Tie to /repo: random histories of Device.append/extend and of every writer\'s append/extend on real '
+        'a one-element list; C16_extend_any_mixture / C16_any_sequence_of_extends: Device.extend with any mixture of objects of the five '
+        'types and groups of waveguides raises nothing and every collection receives exactly the entries of its own type in the '
+        'order given, over any sequence of calls; an entry of any other type anywhere makes the call raise. Tie to /repo: random histories of Device.append/extend and of every writer\'s append/extend on real '
         'Waveguide / NasuWaveguide / TrenchColumn / UTrenchColumn / Marker objects, user subclasses, foreign values, groups and '
         'nested groups: exception class per call, the five obj_lists (identities and nesting) and every argument after the call '
         'are compared with the model; TrenchWriter / UTrenchWriter constructors are exercised with single columns and lists.',
-   note='Trusted: Coq kernel; harness/c16.py identity bookkeeping. The general mixed-history clause is decided by the '
-        'correspondence (the model is executable for every history); the theorems cover the cases listed.',
+   note='Trusted: Coq kernel; harness/c16.py identity bookkeeping. That the caller\'s lists are left untouched cannot be '
+        'stated in a model with immutable values and is decided by the correspondence, as are histories mixing device and '
+        'writer calls.',
    design='5/C16'),
  'C08': dict(
    technique='Coq proof (Nasu pass order as an arithmetic characterisation; REPEAT executes its body n times) + token-level differential of the _WG/_NASU/_MK files through the session model + controller monitors + file-system naming check',
@@ -188,14 +193,18 @@ CHECKS = {
    technique='Coq proof (nested induction over op trees / loop trees: parse-flatten inversion, well-formed emission under exceptions) + history-level differential with exceptions injected at every position + controller monitors on femto\'s own file',
    text='Props/C03.v: for every op tree and exception position the session file is the DVAR preamble plus the print of a '
         'well-formed loop tree (balanced, nested, NEXT matches FOR) and parses back to it; calls/removals of unloaded programs '
-        'are refused; the loaded-before/unloaded-after clause is machine-refuted for loop bodies that change the loaded set '
-        '(known finding). Tie to /repo: random and directed op trees are run against the real PGMCompiler with real with-blocks '
+        'are refused; C03_no_error_shutter_rotation: for every tree of public operations (closed-path writes, positioning, '
+        'nested REPEAT/FOR/rotation blocks, load/call/remove, declarations, user exceptions anywhere) the written file runs on '
+        'the controller, from any machine state, with no error other than not-loaded calls, ends with the shutter closed and '
+        'the rotation off (Ctl/Safety.v, Pgm/SafeProofs.v, Pgm/CalmProofs.v, Pgm/SessionSafe.v); positioning moves are '
+        'shutter-closed; the loaded-before/unloaded-after clause is machine-refuted for loop bodies that change the loaded '
+        'set (known finding). Tie to /repo: random and directed op trees are run against the real PGMCompiler with real with-blocks '
         'and a user exception at every position; written-or-not, exception class, token stream and dwell are compared with '
         'the model, and femto\'s file is parsed and run on the controller model (no controller error, rotation off, shutter '
         'closed at the end, exposure only on written paths).',
-   note='Trusted: Coq kernel, lexer, Python with/finally semantics, Ctl/Machine.v as the reference controller. The shutter / '
-        'rotation / no-controller-error clauses are currently decided by the monitors on generated instances plus the '
-        'token-level tie to the model; their invariant proofs over all op trees are in progress (see DESIGN.md).',
+   note='Trusted: Coq kernel, lexer, Python with/finally semantics, Ctl/Machine.v as the reference controller. That the '
+        'open moves are exactly those of the written paths is decided by the exposure monitor on generated instances; the '
+        'theorem assumes a positioning speed that does not print as F0.000000 in the rotation lines.',
    design='5/C03'),
  'C12': dict(
    technique='Coq proof (induction over op trees and loop trees: reported dwell = static dwell = executed dwell) + history-level differential + controller monitor',
@@ -205,7 +214,8 @@ CHECKS = {
         'dwell executed by the controller on femto\'s own file; fabrication_time of closed paths is compared with the '
         'Gallina travel-time model and with scans x travel time of the controller trace of one compiled pass.',
    note='Trusted: Coq kernel, lexer; float summation covered by 1e-9 (dwell) / 2e-4 (float32 fabrication_time) relative '
-        'tolerances; the fabrication-time clause is decided by correspondence only (no theorem yet).',
+        'tolerances; for the fabrication-time clause the theorem is the preservation of step lengths by the transformation '
+        '(C12_step_lengths_preserved, with C01_replay); the float effects are decided by correspondence.',
    design='5/C12'),
  'C01': dict(
    technique='Coq proof (induction over the point list, invariant machine-shutter = tracked-shutter) + token-level differential + verified-by-construction replay monitor on femto\'s own .pgm',
